@@ -1,0 +1,20 @@
+//go:build verif
+
+// Contracts for package extra25519, checked by /verif (bfvc). Comment-only.
+package extra25519
+
+//@ func PrivateKeyToCurve25519
+//@   requires len(privateKey) >= 32
+//@   ensures len(ret) == 64 && ret != nil
+//@   fresh ret
+
+//@ func PublicKeyToCurve25519
+//@   requires len(edBytes) == 32
+//@   ensures ret1 ==> len(ret0) == 32 && ret0 != nil
+//@   ensures !ret1 ==> ret0 == nil
+//@   fresh ret0
+
+// C14 (functional contract in BV mode is separate): no out-of-bounds access for 32-byte input.
+//@ func IsEdLowOrder
+//@   trusted bit-level contract is checked by C14
+//@   requires len(ge) == 32
